@@ -36,9 +36,10 @@ func run(c *hlib.Ctx) {
 	}
 	w2["dupdelete"] = 4
 	open := lakeh.Profile{Name: "c14-open", W: w2, MaxOps: 10}
+	lakeh.RunWitnesses(c, "C14", lakeh.Options{Prop: "C14", Determinism: 2, StopOnFail: true})
 	lakeh.RunPlan(c, lakeh.Plan{
 		Opt:      lakeh.Options{Prop: "C14", Determinism: 2, Reopen: true, StopOnFail: true},
 		Profiles: []lakeh.Profile{guarded, guarded, open},
-		Quick:    150, Thorough: 3000,
+		Quick:    100, Thorough: 2500,
 	})
 }
